@@ -48,6 +48,7 @@
 import DDS.Proofs.GenPagSketch2
 import DDS.Proofs.GenPagCodec
 import DDS.Proofs.GenDecodeWrap
+import DDS.Generated.CodeSketchIter
 
 namespace DDS.GenPagSketch
 
@@ -470,6 +471,100 @@ theorem loop1_param (OK : GPS grow → List (BitVec 8) → SubFlag → Prop)
                       exact ih b2 _ _ h (hg' b2 hB)
     · simp only [h0, Bool.false_eq_true, if_false]
       exact ⟨rfl, h⟩
+
+/-- two results of a sketch-level decode agree: the same error; when nil, related sketches -/
+def SkResRel (r : Res (DDSketch M (GPS grow) × GoErr)) (r' : Res (DDSketch M Store × GoErr)) : Prop :=
+  match r, r' with
+  | .ok p, .ok p' => p.2 = p'.2 ∧ (p'.2 = GoErr.nil → SkSim p.1 p'.1)
+  | .panic, .panic => True
+  | .nofuel, .nofuel => True
+  | _, _ => False
+
+/-- `DDSketch.decodeAndMergeWith` (the loop, then the "missing index mapping" test) over the two instances -/
+theorem decodeAndMergeWith_param (OK : GPS grow → List (BitVec 8) → SubFlag → Prop)
+    (hOK : ∀ x st b sub, Sim x st → OK x b sub → StepRel x st b sub)
+    (fb : List (BitVec 8) → Flag → Res (List (BitVec 8) × GoErr))
+    (fuel : Nat) (b : List (BitVec 8)) {a : DDSketch M (GPS grow)} {a' : DDSketch M Store}
+    (h : SkSim a a') (hg : GoodRun OK fb fuel b a) :
+    SkResRel (DDSketch.decodeAndMergeWith fuel a b fb) (DDSketch.decodeAndMergeWith fuel a' b fb) := by
+  have hL := loop1_param OK hOK fb fuel b a a' h hg
+  unfold DDSketch.decodeAndMergeWith
+  dsimp only
+  generalize DDSketch.decodeAndMergeWith.loop1 fb fuel b a = l at hL
+  generalize DDSketch.decodeAndMergeWith.loop1 fb fuel b a' = l' at hL
+  cases l with
+  | done p =>
+    cases l' with
+    | done p' =>
+      obtain ⟨b1, s1⟩ := p
+      obtain ⟨b1', s1'⟩ := p'
+      obtain ⟨_, hs⟩ := hL
+      simp only [Loop.elim_done]
+      rw [show s1.IndexMapping = s1'.IndexMapping from hs.map]
+      by_cases hn : MapI.isNil s1'.IndexMapping = true
+      · simp only [hn, if_true]
+        exact ⟨rfl, fun h => absurd (show GoErr.named "missing index mapping" = GoErr.nil from h) (by decide)⟩
+      · simp only [hn, Bool.false_eq_true, if_false]
+        exact ⟨rfl, fun _ => hs⟩
+    | ret _ => exact hL.elim
+    | panic => exact hL.elim
+    | nofuel => exact hL.elim
+  | ret p =>
+    cases l' with
+    | ret p' =>
+      obtain ⟨h1, h2⟩ := hL
+      simp only [Loop.elim_ret]
+      exact ⟨h1, fun h => absurd (h1.trans h) h2⟩
+    | done _ => exact hL.elim
+    | panic => exact hL.elim
+    | nofuel => exact hL.elim
+  | panic =>
+    cases l' with
+    | panic => exact trivial
+    | done _ => exact hL.elim
+    | ret _ => exact hL.elim
+    | nofuel => exact hL.elim
+  | nofuel =>
+    cases l' with
+    | nofuel => exact trivial
+    | done _ => exact hL.elim
+    | ret _ => exact hL.elim
+    | panic => exact hL.elim
+
+/-- the fallback of the plain decoder (exact-summary flags are skipped) does not depend on the store type -/
+theorem lit1_eq (fuel : Nat) :
+    DDSketch.DecodeAndMergeWith.lit1 (M := M) (S := GPS grow) fuel =
+      DDSketch.DecodeAndMergeWith.lit1 (M := M) (S := Store) fuel := rfl
+
+omit [MapI M] [Inhabited M] in
+theorem skResRel_bind {r : Res (DDSketch M (GPS grow) × GoErr)} {r' : Res (DDSketch M Store × GoErr)}
+    (h : SkResRel r r') :
+    SkResRel (Res.bind r (fun p => .ok (p.1, p.2))) (Res.bind r' (fun p => .ok (p.1, p.2))) := by
+  cases r <;> cases r' <;> exact h
+
+/-- **`DDSketch.DecodeAndMergeWith` over the two store instances**: the same error; when nil, related sketches -/
+theorem DecodeAndMergeWith_param (OK : GPS grow → List (BitVec 8) → SubFlag → Prop)
+    (hOK : ∀ x st b sub, Sim x st → OK x b sub → StepRel x st b sub)
+    (fuel : Nat) (b : List (BitVec 8)) {a : DDSketch M (GPS grow)} {a' : DDSketch M Store}
+    (h : SkSim a a')
+    (hg : GoodRun OK (DDSketch.DecodeAndMergeWith.lit1 (M := M) (S := Store) fuel) fuel b a) :
+    SkResRel (DDSketch.DecodeAndMergeWith fuel a b) (DDSketch.DecodeAndMergeWith fuel a' b) := by
+  unfold DDSketch.DecodeAndMergeWith
+  rw [lit1_eq]
+  exact skResRel_bind (decodeAndMergeWith_param OK hOK _ fuel b h hg)
+
+/-- **`DecodeDDSketch` with the provider `NewBufferedPaginatedStore`** over the two store instances -/
+theorem DecodeDDSketch_param (OK : GPS grow → List (BitVec 8) → SubFlag → Prop)
+    (hOK : ∀ x st b sub, Sim x st → OK x b sub → StepRel x st b sub)
+    (fuel : Nat) (b : List (BitVec 8)) (m : M)
+    (hg : GoodRun OK (DDSketch.DecodeAndMergeWith.lit1 (M := M) (S := Store) fuel) fuel b
+      (NewDDSketch m (⟨NewBufferedPaginatedStore⟩ : GPS grow) ⟨NewBufferedPaginatedStore⟩)) :
+    SkResRel
+      (Gen.SketchIter.DecodeDDSketch fuel b (fun _ => .ok (⟨NewBufferedPaginatedStore⟩ : GPS grow)) m)
+      (Gen.SketchIter.DecodeDDSketch fuel b (fun _ => .ok (Store.new .pag)) m) := by
+  unfold Gen.SketchIter.DecodeDDSketch
+  simp only [Res.bind_ok]
+  exact skResRel_bind (DecodeAndMergeWith_param OK hOK fuel b (skSim_new m) hg)
 
 end sketchDecode
 
